@@ -51,6 +51,8 @@ const (
 	BOwnCheckResults
 	BPanicTypedNilError
 	BPanicErrorIsPanics
+	BHelperPassThenErrorf
+	BHelperPassThenPanic
 	NumBehaviours
 	// BHelperPanicThenFailNow is not among the behaviours drawn at random: the helper goroutine it leaves behind uses the
 	// handle with no ordering against the end of the iteration (the program's own race), so it runs in the plain flavour only
@@ -68,12 +70,12 @@ var BehaviourNames = []string{"pass", "Fail", "FailNow", "Error", "Errorf", "Fat
 	"panic(\"\")", "panic-in-helper-goroutine-guarded-by-CheckResults", "two-guarded-helpers-sharing-one-done-channel",
 	"panic(value-whose-String-panics)", "FailNow-in-helper-goroutine-guarded-by-CheckResults",
 	"Logger().Panic", "FailNow-recovered-by-the-function-itself", "panic-under-the-function's-own-CheckResults",
-	"panic(typed-nil-error)", "panic(error-whose-Is-panics)", "guarded-helper-panics-then-the-function-stops-without-waiting-for-it"}
+	"panic(typed-nil-error)", "panic(error-whose-Is-panics)", "passing-guarded-helper-then-Errorf", "passing-guarded-helper-then-panic", "guarded-helper-panics-then-the-function-stops-without-waiting-for-it"}
 
 // Stops reports whether the behaviour ends the function at that point.
 func Stops(kind int) bool {
 	switch kind {
-	case BPass, BFail, BError, BErrorf, BAssert, BHelperPanic, BTwoHelpers, BHelperFailNow, BRecoverFailNow, BOwnCheckResults:
+	case BPass, BFail, BError, BErrorf, BAssert, BHelperPanic, BTwoHelpers, BHelperFailNow, BRecoverFailNow, BOwnCheckResults, BHelperPassThenErrorf:
 		return false
 	}
 	return true
@@ -256,6 +258,17 @@ func Behave(t *f1testing.T, kind int) {
 		}()
 		time.Sleep(3 * time.Millisecond)
 		t.FailNow()
+	case BHelperPassThenErrorf, BHelperPassThenPanic:
+		// a piece of work handed to a guarded helper goroutine that passes; the function waits for it and fails afterwards
+		done := make(chan struct{})
+		go func() {
+			defer f1testing.CheckResults(t, done)
+		}()
+		<-done
+		if kind == BHelperPassThenPanic {
+			panic("planned panic after a guarded helper had passed")
+		}
+		t.Errorf("planned %s after a guarded helper had passed", "errorf")
 	case BPanicErrorIsPanics:
 		panic(&isPanicsErr{})
 	case BOtherRequire:
